@@ -58,6 +58,45 @@ def main():
                     elif isinstance(n, ast.ClassDef):
                         visit(n, qual + n.name + ".")
             visit(tree, "")
+    # outcome coverage of if / conditional expressions / and-or operands (inside functions)
+    outcomes = {}
+    for mod, key in seen:
+        if isinstance(key, str):
+            ln, col, what = key.split(":", 2)
+            outcomes.setdefault((mod, int(ln), int(col)), set()).add(what)
+    part = []
+    for root, _, files in os.walk(os.path.join(REPO, "oneliner")):
+        for fn in sorted(files):
+            if not fn.endswith(".py"):
+                continue
+            path = os.path.join(root, fn)
+            mod = ("oneliner." + os.path.relpath(path, os.path.join(REPO, "oneliner"))[:-3].replace("/", ".")).replace(".__init__", "")
+            src = open(path, encoding="utf8").read()
+            lines = src.splitlines()
+            tree = ast.parse(src)
+            infunc = set()
+            for f_ in ast.walk(tree):
+                if isinstance(f_, (ast.FunctionDef, ast.AsyncFunctionDef, ast.Lambda)):
+                    infunc |= {id(x) for x in ast.walk(f_)}
+            for n in ast.walk(tree):
+                if id(n) not in infunc:
+                    continue
+                got = outcomes.get((mod, getattr(n, "lineno", -1), getattr(n, "col_offset", -1)), set()) | outcomes.get(("__main__", getattr(n, "lineno", -1), getattr(n, "col_offset", -1)), set())
+                if isinstance(n, ast.If):
+                    need = {"if-true", "if-false"}
+                elif isinstance(n, ast.IfExp):
+                    need = {"ifexp-then", "ifexp-else"}
+                elif isinstance(n, ast.BoolOp):
+                    need = {f"boolop-operand{i}-{t}" for i in range(len(n.values) - 1) for t in ("true", "false")}
+                else:
+                    continue
+                miss = need - got
+                if miss and (mod, n.lineno) in seen:   # (statement itself reached)
+                    part.append((mod, n.lineno, sorted(miss), lines[n.lineno - 1].strip()[:100]))
+    print("---- conditions reached with only some outcomes ----")
+    for mod, ln, miss, txt in sorted(part):
+        print(f"{mod}:{ln}: never {miss}: {txt}")
+    print("---- statements never executed ----")
     for k in sorted(out):
         print(k)
         for ln, txt in sorted(set(out[k])):
